@@ -118,6 +118,34 @@ let freeze (p : Rules.pos) : Rules.pos =
 let spec_move_str (m : Rules.move) : string =
   Printf.sprintf "%d/%d/%d" (int_of_n m.Rules.mv_from) (int_of_n m.Rules.mv_to) (opt_piece_int m.Rules.mv_promo)
 
+(* the attributes a move must report, computed from the rules-level position alone *)
+let spec_attrs (p : Rules.pos) (m : Rules.move) : string =
+  let f = int_of_n m.Rules.mv_from and t = int_of_n m.Rules.mv_to in
+  let kind = match p.Rules.p_at m.Rules.mv_from with Some (_, k) -> k | None -> Types.PNone in
+  let is_pawn = kind = Types.Pawn and is_king = kind = Types.King in
+  let target = p.Rules.p_at m.Rules.mv_to in
+  let ep = is_pawn && (f mod 8 <> t mod 8) && target = None in
+  let cap = if ep then 1 else (match target with Some (_, k) -> piece_int k | None -> 0) in
+  let castle = if is_king && abs (f mod 8 - t mod 8) = 2 then (if t mod 8 = 6 then 1 else 2) else 0 in
+  let dbl = is_pawn && abs (f / 8 - t / 8) = 2 in
+  Printf.sprintf "%d/%d/%d/%d/%d/%d/%d/%d/%d" f t (opt_piece_int m.Rules.mv_promo) (piece_int kind)
+    (match p.Rules.p_turn with Types.White -> 0 | Types.Black -> 1) cap (bool_int ep) castle (bool_int dbl)
+
+let checksum_moves (ms : coq_N list) : int =
+  (* order-dependent polynomial checksum over (raw, accessors), identical in the Rust harness *)
+  let md = 1000000007 in
+  L.fold_left (fun acc m ->
+    let fields = [int_of_n m; int_of_n (MoveEnc.m_origin m); int_of_n (MoveEnc.m_dest m);
+                  opt_piece_int (MoveEnc.m_promotion m); piece_int (MoveEnc.m_piece m);
+                  (match MoveEnc.m_color m with Types.White -> 0 | Types.Black -> 1);
+                  opt_piece_int (MoveEnc.m_capture m); bool_int (MoveEnc.m_is_ep m);
+                  (match MoveEnc.m_castle_side m with None -> 0 | Some true -> 1 | Some false -> 2);
+                  bool_int (MoveEnc.m_is_double m)] in
+    L.fold_left (fun a x -> (a * 131 + (x mod md) + 7) mod md) acc fields) 17 ms
+
+let piece_of_int i = match Types.piece_of_N (n_of_int i) with Some p -> p | None -> Types.PNone
+let color_of_int i = if i = 0 then Types.White else Types.Black
+
 let rec spec_perft d p =
   if d = 0 then 0 else
   let ms = Rules.legal_moves p in
@@ -125,6 +153,35 @@ let rec spec_perft d p =
   else L.fold_left (fun acc m -> acc + spec_perft (d - 1) (freeze (Rules.apply p m))) 0 ms
 
 let bb_str (n : coq_N) = dec_of_n n
+
+(* seeded playout through the SPEC (independent of the code under test): returns the visited FENs *)
+let spec_playout (seed : int) (plies : int) (fen : string) : string list =
+  match spec_pos fen with
+  | None -> []
+  | Some p0 ->
+    let st = ref (seed * 2654435761 + 1013904223) in
+    let next () = st := (!st * 2862933555777941757 + 3037000493) land max_int; (!st lsr 17) in
+    let rec go p n acc =
+      if n = 0 then L.rev acc else
+      let ms = Rules.legal_moves p in
+      if ms = [] then L.rev acc else begin
+        (* bias: special moves (promotion, castling, en passant, capture, double step) are preferred half of the time *)
+        let special m =
+          m.Rules.mv_promo <> None
+          || (match p.Rules.p_at m.Rules.mv_from with
+              | Some (_, Types.King) -> abs (int_of_n m.Rules.mv_from - int_of_n m.Rules.mv_to) = 2
+              | Some (_, Types.Pawn) -> (int_of_n m.Rules.mv_from - int_of_n m.Rules.mv_to) mod 8 <> 0
+                                        || abs (int_of_n m.Rules.mv_from - int_of_n m.Rules.mv_to) = 16
+              | _ -> false)
+          || p.Rules.p_at m.Rules.mv_to <> None in
+        let sp = L.filter special ms in
+        let pool = if sp <> [] && next () mod 2 = 0 then sp else ms in
+        let m = L.nth pool (next () mod L.length pool) in
+        let p' = freeze (Rules.apply p m) in
+        go p' (n - 1) (spec_fen p' :: acc) end in
+    go (freeze p0) plies [fen]
+
+let hashers : (string, Text.hasher) Hashtbl.t = Hashtbl.create 16
 
 (* ---------- commands ---------- *)
 let run (cmd : string) (args : string list) : string =
@@ -139,7 +196,7 @@ let run (cmd : string) (args : string list) : string =
     (match spec_pos fen with
      | None -> "badfen"
      | Some p ->
-       let l = L.map (fun m -> spec_move_str m ^ "=" ^ spec_fen (Rules.apply p m)) (Rules.legal_moves p) in
+       let l = L.map (fun m -> spec_attrs p m ^ "=" ^ spec_fen (Rules.apply p m)) (Rules.legal_moves p) in
        String.concat ";" (L.sort compare l))
   | "perft", [d; fen] ->
     (match model_state fen with
@@ -149,6 +206,85 @@ let run (cmd : string) (args : string list) : string =
     (match spec_pos fen with
      | None -> "badfen"
      | Some p -> string_of_int (spec_perft (int_of_string d) p))
+  | "specplayout", [seed; plies; fen] ->
+    String.concat ";" (spec_playout (int_of_string seed) (int_of_string plies) fen)
+  | "moveblock", [c; p; o] ->
+    (* all builds for this colour/kind/origin: d x {no capture, 5 kinds} x {no promotion, 4 kinds}, then e.p. and castling *)
+    let c = color_of_int (int_of_string c) and p = piece_of_int (int_of_string p) and o = n_of_int (int_of_string o) in
+    let ms = ref [] in
+    for d = 0 to 63 do
+      L.iter (fun cap -> L.iter (fun pro ->
+        let m = MoveEnc.by_moving c p o (n_of_int d) in
+        let m = if cap = 0 && pro = 0 then m
+          else if pro = 0 then MoveEnc.by_capturing c p o (n_of_int d) (piece_of_int cap)
+          else if cap = 0 then MoveEnc.by_promoting c p o (n_of_int d) (piece_of_int pro)
+          else MoveEnc.by_capture_promoting c p o (n_of_int d) (piece_of_int cap) (piece_of_int pro) in
+        ms := m :: !ms) [0; 2; 3; 4; 5]) [0; 1; 2; 3; 4; 5];
+      ms := MoveEnc.by_en_passant c p o (n_of_int d) :: !ms
+    done;
+    L.iter (fun k -> ms := MoveEnc.by_castling c k :: !ms) [true; false];
+    let ms = L.rev !ms in
+    Printf.sprintf "%d %d 0" (L.length ms) (checksum_moves ms)
+  | "moveone", [c; p; o; d; cap; pro] ->
+    let c = color_of_int (int_of_string c) and p = piece_of_int (int_of_string p)
+    and o = n_of_int (int_of_string o) and d = n_of_int (int_of_string d)
+    and cap = int_of_string cap and pro = int_of_string pro in
+    let m = if cap = 0 && pro = 0 then MoveEnc.by_moving c p o d
+      else if pro = 0 then MoveEnc.by_capturing c p o d (piece_of_int cap)
+      else if cap = 0 then MoveEnc.by_promoting c p o d (piece_of_int pro)
+      else MoveEnc.by_capture_promoting c p o d (piece_of_int cap) (piece_of_int pro) in
+    move_attrs m
+  | "resolve", [fen; f; t; pr] ->
+    (match model_state fen with
+     | None -> "badfen"
+     | Some s ->
+       let f = n_of_int (int_of_string f) and t = n_of_int (int_of_string t) and pr = int_of_string pr in
+       let q = { MoveEnc.q_empty with MoveEnc.q_orank = Some (Bits.rank_of f); q_ofile = Some (Bits.file_of f);
+                 q_drank = Some (Bits.rank_of t); q_dfile = Some (Bits.file_of t);
+                 q_promotion = (if pr = 0 then None else Some (piece_of_int pr)) } in
+       (match MoveGen.resolve s [q] with
+        | MoveGen.ROk s' -> "ok " ^ model_fen s'
+        | MoveGen.RAmbiguous -> "ambiguous"
+        | MoveGen.RUnknown -> "unknown"
+        | MoveGen.RIllegalEp -> "illegal-ep"))
+  | "specresolve", [fen; f; t; pr] ->
+    (match spec_pos fen with
+     | None -> "badfen"
+     | Some p ->
+       let f = int_of_string f and t = int_of_string t and pr = int_of_string pr in
+       let ms = L.filter (fun m -> int_of_n m.Rules.mv_from = f && int_of_n m.Rules.mv_to = t
+                                   && (pr = 0 || opt_piece_int m.Rules.mv_promo = pr)) (Rules.legal_moves p) in
+       (match ms with
+        | [m] -> "ok " ^ spec_fen (Rules.apply p m)
+        | [] -> "unknown"
+        | _ -> "ambiguous"))
+  | "tableops", [nt; nb; ops] ->
+    let a0 = Table.empty_access (nat_of_int (int_of_string nt)) (nat_of_int (int_of_string nb)) in
+    let z_of_int i = if i >= 0 then (match n_of_int i with N0 -> Z0 | Npos p -> Zpos p) else (match n_of_int (-i) with N0 -> Z0 | Npos p -> Zneg p) in
+    let int_of_z = function Z0 -> 0 | Zpos p -> int_of_pos p | Zneg p -> - (int_of_pos p) in
+    let kind_of = function 0 -> Table.Exact | 1 -> Table.UpperBound | _ -> Table.LowerBound in
+    let kind_to = function Table.Exact -> 0 | Table.UpperBound -> 1 | Table.LowerBound -> 2 in
+    let a = ref a0 in
+    let out = L.map (fun op ->
+      match String.split_on_char ':' op with
+      | "i" :: k :: kd :: raw :: d :: md :: ev :: _ ->
+        a := Table.acc_insert !a (n_of_dec k) { Table.e_kind = kind_of (int_of_string kd); e_move = n_of_dec raw;
+                                                e_depth = n_of_dec d; e_maxdepth = n_of_dec md; e_eval = z_of_int (int_of_string ev) };
+        "n" ^ dec_of_n (Table.acc_entries !a)
+      | _ :: k :: _ ->
+        (match Table.acc_find !a (n_of_dec k) with
+         | None -> "-"
+         | Some e -> Printf.sprintf "%d:%s:%s:%s:%d" (kind_to e.Table.e_kind) (dec_of_n e.Table.e_move) (dec_of_n e.Table.e_depth)
+                       (dec_of_n e.Table.e_maxdepth) (int_of_z e.Table.e_eval))
+      | _ -> "?") (String.split_on_char ',' ops) in
+    String.concat "," out ^ " max=" ^ dec_of_n (Table.acc_max_entries !a)
+  | "sethasher", [seed; stream] ->
+    Hashtbl.replace hashers seed (Text.hasher_of_stream (L.map n_of_dec (String.split_on_char ',' stream))); "ok"
+  | "hash", [seed; fen] ->
+    (match model_state fen, Hashtbl.find_opt hashers seed with
+     | Some s, Some h -> dec_of_n (Text.hash h s)
+     | None, _ -> "badfen"
+     | _, None -> "no-hasher")
   | "legalpos", [fen] ->
     (match spec_pos fen with None -> "badfen" | Some p -> if Rules.legal_pos p then "1" else "0")
   | "rook", [s; occ] -> bb_str (Attacks.rook_attacks (n_of_int (int_of_string s)) (n_of_dec occ))
